@@ -4,7 +4,8 @@
 use crate::common::*;
 use crate::corpus::{self, Config};
 use crate::e2x::*;
-use serde_json::json;
+use serde_json::{Value, json};
+use std::collections::BTreeSet;
 use std::time::{Duration, Instant};
 
 fn corpus_for(tier: Tier) -> Result<Vec<Prog>, String> {
@@ -563,4 +564,135 @@ fn explore_all_with(tier: Tier, cfg: &ExploreCfg, part: &mut Part, pick: impl Fn
     part.traces_validated = part.transitions;
     part.extra.insert("reference_traces".into(), json!(progs.iter().map(|p| json!({"program": p.name(), "steps": p.trace.steps.len()})).collect::<Vec<_>>()));
     let _ = Duration::from_secs(0);
+}
+
+/// Addresses the kernel does not accept for a debug register (outside the user address space):
+/// a watchpoint there either is refused or, if the debugger lists it, must be in the registers.
+pub fn part_c14_refused_addresses(_tier: Tier) -> Part {
+    use crate::corpus::Stmt;
+    let mut part = Part::new("e2e-watch-addresses-the-kernel-refuses");
+    part.rule = "at a stop, set_watchpoint_on_memory is called for addresses outside the user address space (0x800000000000, 0xaaaaaaaad000, 0xffff800000000000, 0xfffffffffffffff8; sizes 1 and 8; write and read-write), alone, after two good watchpoints and before five good ones; after every call the enabled slots of u_debugreg of every thread (read with the harness's own PTRACE_PEEKUSER) must be exactly the watchpoints the debugger lists - a watchpoint the debugger accepts but no register holds is a violation - and the capacity (four, a fifth refused) must be unchanged afterwards".into();
+    let progs = match corpus::build_many(&[vec![Stmt::Raise(14), Stmt::Assign, Stmt::Sleep(40)]], &[Config::default_cfg()]).and_then(prepare) {
+        Ok(p) => p,
+        Err(e) => {
+            part.violate("C14:machinery:corpus", e, json!({}));
+            part.exhaustive = false;
+            return part;
+        }
+    };
+    let p = &progs[0];
+    let Some(line) = p.line_of("assign") else {
+        part.violate("C14:machinery:no-line", "assign".to_string(), json!({}));
+        return part;
+    };
+    let good: Vec<u64> = {
+        let mut v: Vec<u64> = p.watch_cands.iter().map(|c| c.0 & !7).collect();
+        v.sort();
+        v.dedup();
+        let b = v[0];
+        (0..5).map(|i| b + 8 * i).collect()
+    };
+    let bad = BAD_ADDRS;
+    let mut scripts: Vec<Vec<Value>> = vec![];
+    for b in bad {
+        for (size, rw) in [(8u64, false), (1, true)] {
+            let w = |a: u64, size: u64, rw: bool| json!({"op":"watch_addr","addr":a,"size":size,"rw":rw});
+            // alone, then the capacity
+            let mut s1 = vec![w(b, size, rw)];
+            s1.extend(good.iter().map(|g| w(*g, 8, false)));
+            scripts.push(s1);
+            // after two good ones, twice, then the capacity
+            let mut s2 = vec![w(good[0], 8, false), w(good[1], 8, false), w(b, size, rw), w(b, size, rw)];
+            s2.extend(good[2..].iter().map(|g| w(*g, 8, false)));
+            scripts.push(s2);
+        }
+    }
+    part.bounds = json!({"addresses": bad.len(), "scripts": scripts.len()});
+    let jobs: Vec<Value> = scripts
+        .iter()
+        .map(|sc| {
+            let mut job = init_json(p, false);
+            let mut cmds = vec![json!({"op":"break_line","file":p.built.program.src_file,"line":line}), json!({"op":"start"})];
+            cmds.extend(sc.iter().cloned());
+            job["commands"] = json!(cmds);
+            job
+        })
+        .collect();
+    use rayon::prelude::*;
+    let outs: Vec<WorkerOutcome> = jobs.par_iter().map(|j| run_worker("e2e", j, Duration::from_secs(120))).collect();
+    for (j, out) in jobs.iter().zip(outs) {
+        let replay = json!({"engine":"e2e-script","exe":p.built.exe,"commands":j["commands"]});
+        part.states += 1;
+        let WorkerOutcome::Ok(v) = out else {
+            part.violate("C14:bad-address:debugger-crashed-or-hung", format!("[{}] {:?}", p.name(), out).chars().take(400).collect::<String>(), replay);
+            continue;
+        };
+        let obs = v["obs"].as_array().cloned().unwrap_or_default();
+        part.transitions += obs.len().saturating_sub(2) as u64;
+        part.evaluations += obs.len().saturating_sub(2) as u64;
+        let f = judge_bad_addresses(&p.name(), &obs);
+        if f.is_empty() {
+            part.distinct_nontrivial += 1;
+        }
+        for (sig, detail) in f {
+            part.violate(sig, detail, replay.clone());
+        }
+    }
+    part.traces_validated = part.states;
+    part
+}
+
+const BAD_ADDRS: [u64; 4] = [0x8000_0000_0000, 0xaaaa_aaaa_d000, 0xffff_8000_0000_0000, 0xffff_ffff_ffff_fff8];
+
+fn judge_bad_addresses(name: &str, obs: &[Value]) -> Vec<(String, String)> {
+    let bad = BAD_ADDRS;
+    let mut out = vec![];
+    let mut hist = String::new();
+    'obs: for o in obs.iter().skip(2) {
+        let addr = o["cmd"]["addr"].as_u64().unwrap_or(0);
+        let ok = o["res"]["ok"].as_bool().unwrap_or(false);
+        let is_bad = bad.contains(&addr);
+        hist.push_str(&format!("watch {addr:#x}:{} -> {}; ", o["cmd"]["size"], if ok { "accepted" } else { "refused" }));
+        let listed: BTreeSet<u64> = o["wps"].as_array().map(|v| v.iter().filter_map(|w| w["addr"].as_u64()).collect()).unwrap_or_default();
+        for th in o["dregs"].as_array().cloned().unwrap_or_default() {
+            let dr7 = th["dr7"].as_u64().unwrap_or(0);
+            let enabled: BTreeSet<u64> = (0..4u64).filter(|n| dr7 >> (2 * n) & 1 == 1).map(|n| th["dr"][n as usize].as_u64().unwrap_or(0)).collect();
+            if enabled != listed {
+                let kind = if is_bad && ok { "accepted-but-in-no-register:address-outside-user-space" } else if enabled.len() < listed.len() { "missing-slot" } else { "stale-or-extra-slot" };
+                out.push((format!("C14:bad-address:{kind}"), format!("[{name}] {hist}thread {} has enabled slots {enabled:x?} (DR7 {dr7:#x}), the debugger lists watchpoints at {listed:x?}", th["tid"])));
+                break 'obs;
+            }
+        }
+    }
+    // capacity afterwards: exactly four of the five good addresses
+    let good_results: Vec<bool> = obs.iter().skip(2).filter(|o| !bad.contains(&o["cmd"]["addr"].as_u64().unwrap_or(0))).map(|o| o["res"]["ok"].as_bool().unwrap_or(false)).collect();
+    if good_results != [true, true, true, true, false] {
+        out.push(("C14:bad-address:capacity-changed".to_string(), format!("[{name}] {hist}the five good watchpoints were answered {good_results:?}, expected four accepted and the fifth refused")));
+    }
+    out
+}
+
+pub fn replay_bad_addresses(v: &Value) -> i32 {
+    let p = match load_prog(v["exe"].as_str().unwrap_or("")) {
+        Ok(p) => p,
+        Err(e) => {
+            eprintln!("{e}");
+            return 2;
+        }
+    };
+    let mut job = init_json(&p, false);
+    job["commands"] = v["commands"].clone();
+    match run_worker("e2e", &job, Duration::from_secs(120)) {
+        WorkerOutcome::Ok(r) => {
+            let f = judge_bad_addresses(&p.name(), &r["obs"].as_array().cloned().unwrap_or_default());
+            for (sig, d) in &f {
+                println!("violated {sig}: {d}");
+            }
+            if f.is_empty() { 0 } else { 1 }
+        }
+        o => {
+            println!("{o:?}");
+            1
+        }
+    }
 }
